@@ -16,7 +16,8 @@
     explicit parents / follows-from targets / entered spans, spans the main thread created before
     they started) is an assumption of this judge, checked only by the runs themselves. *)
 From TT Require Export Judge.C05 Capture.Concurrent.
-From TT Require Import Capture.Queries Capture.QueriesProofs Tunnel.TypesProofs Capture.LayerProofs Guest.ProgramProofs.
+From TT Require Export Capture.Solo.
+From TT Require Import Capture.Queries Capture.QueriesProofs Tunnel.TypesProofs Capture.LayerProofs Guest.ProgramProofs Capture.SoloProofs.
 From Coq Require Import Sorting.Sorted.
 
 (** * [storage_wf], executable *)
@@ -238,17 +239,97 @@ Proof.
   - apply nevent_eqb_spec.
 Qed.
 
+(** ** what the implementation's storage says about a worker thread, in the vocabulary of [tview]
+    ([Capture/Solo.v]): the markers the harness hands out are (thread, rank among the thread's spans)
+    for spans and (thread, rank among the thread's events) for events, i.e. the marker of a span is
+    its [span_ref] *)
+Definition tspan := (cs_data * tvalues * N * N * option (nat * nat) * list (nat * nat))%type.
+Definition tevent := (cs_data * tvalues * option (nat * nat))%type.
+
+Definition mark_nat (m : option (Z * Z)) : nat * nat :=
+  match m with Some (a, b) => (Z.to_nat a, Z.to_nat b) | None => (0, 0)%nat end.   (* never used when nothing is unmarked, which [judge_free] checks *)
+Definition impl_tview (st : cstorage) (t : nat) : list tspan * list tevent :=
+  (map (fun r : Storage.span_rec span_payload =>
+          (spl_meta (sp_payload r), spl_values (sp_payload r), spl_entered (sp_payload r), spl_exited (sp_payload r),
+           option_map (fun q => mark_nat (span_marker st q)) (sp_parent_id r),
+           map (fun q => mark_nat (span_marker st q)) (sp_follows_from_ids r)))
+       (List.filter (fun r => of_thread_m (Z.of_nat t) (marker (spl_values (sp_payload r)))) (st_spans st)),
+   map (fun e : Storage.event_rec event_payload =>
+          (epl_meta (ev_payload e), epl_values (ev_payload e),
+           option_map (fun q => mark_nat (span_marker st q)) (ev_parent_id e)))
+       (List.filter (fun e => of_thread_m (Z.of_nat t) (marker (epl_values (ev_payload e)))) (st_events st))).
+
+Definition ref_eqb : nat * nat -> nat * nat -> bool := pair_eqb Nat.eqb Nat.eqb.
+Definition tspan_eqb : tspan -> tspan -> bool :=
+  pair_eqb (pair_eqb (pair_eqb (pair_eqb (pair_eqb cs_data_eqb tvalues_eqb) N.eqb) N.eqb) (option_eqb ref_eqb))
+           (list_eqb ref_eqb).
+Definition tevent_eqb : tevent -> tevent -> bool :=
+  pair_eqb (pair_eqb cs_data_eqb tvalues_eqb) (option_eqb ref_eqb).
+Definition tview_eqb : list tspan * list tevent -> list tspan * list tevent -> bool :=
+  pair_eqb (list_eqb tspan_eqb) (list_eqb tevent_eqb).
+
+Lemma ref_eqb_spec a b : ref_eqb a b = true <-> a = b.
+Proof. apply pair_eqb_spec; apply Nat.eqb_eq. Qed.
+Lemma tview_eqb_spec a b : tview_eqb a b = true <-> a = b.
+Proof.
+  apply pair_eqb_spec; apply list_eqb_spec.
+  - repeat apply pair_eqb_spec; try apply cs_data_eqb_spec; try apply tvalues_eqb_spec; try apply N.eqb_eq.
+    + apply option_eqb_spec, ref_eqb_spec.
+    + apply list_eqb_spec, ref_eqb_spec.
+  - repeat apply pair_eqb_spec; try apply cs_data_eqb_spec; try apply tvalues_eqb_spec.
+    apply option_eqb_spec, ref_eqb_spec.
+Qed.
+
+(** the hypotheses of the non-interference theorem ([Props/C19.v], [C19_worker_view_is_solo_view]),
+    checked for every worker: its operations use only its own and the main thread's spans, nobody
+    else uses its spans, and its solo execution is one the API permits *)
+Definition workers (T : nat) : list nat := seq 1 (T - 1).
+Definition free_scope (T : nat) (p : prog) : bool :=
+  wf_prog_b p && forallb (fun t => isolated t p && wf_prog_b (solo t p)) (workers T).
+
+(** the expected view of every worker - by the theorem the same for every schedule - against what
+    the implementation's storage says *)
+Definition tspan_meta (e : tspan) : cs_data := fst (fst (fst (fst (fst e)))).
+(** the forest lists every span; the storage holds those the filter enables (events are filtered in the
+    forest already) *)
+Definition captured_view (f : cs_data -> bool) (v : list tspan * list tevent) : list tspan * list tevent :=
+  (List.filter (fun e => f (tspan_meta e)) (fst v), snd v).
+Definition workers_ok (T : nat) (p : prog) (f : fexpr) (st : cstorage) : bool :=
+  forallb (fun t => tview_eqb (captured_view (feval f) (tview_of t (feval f) [] p)) (impl_tview st t)) (workers T).
+
 (** [p]: one linearization of the per-thread programs (the harness uses: main's prelude, then each
     worker's whole program in turn, then main's postlude); [T]: number of threads *)
 Definition judge_free (T : nat) (p : prog) (f : fexpr) (impl : option cstorage) : verdict :=
-  judge_of (wf_prog_b p)
+  judge_of (free_scope T p)
            (option_eqb views_eqb (option_map (views T) (storage_of (layer_run (feval f) [] p)))
                        (option_map (views T) impl))
            (match impl with
             | Some st => views_eqb (views T (spec_storage (feval f) [] p)) (views T st)
-                         && (snd (views T st) =? 0) && wf_b st
+                         && (snd (views T st) =? 0) && wf_b st && workers_ok T p f st
             | None => false
             end).
+
+(** the expected worker views do not depend on which linearization the harness picked: any other
+    execution with the same solo executions (that is, any other interleaving of the same per-thread
+    programs) has the same views *)
+Lemma forallb_ext_in' {A} (P Q : A -> bool) l : (forall x, In x l -> P x = Q x) -> forallb P l = forallb Q l.
+Proof.
+  induction l as [|a l IH]; intros H; [reflexivity|]. cbn. rewrite (H a (or_introl eq_refl)), IH; [reflexivity|].
+  intros x Hx. apply H. right. exact Hx.
+Qed.
+
+Theorem workers_ok_schedule_independent T p p' f st :
+  free_scope T p = true -> free_scope T p' = true ->
+  (forall t, In t (workers T) -> solo t p' = solo t p) ->
+  workers_ok T p' f st = workers_ok T p f st.
+Proof.
+  intros H H' Hs. unfold workers_ok. apply forallb_ext_in'. intros t Ht.
+  unfold free_scope in H, H'. apply andb_true_iff in H as [W F]. apply andb_true_iff in H' as [W' F'].
+  rewrite forallb_forall in F, F'. specialize (F t Ht). specialize (F' t Ht).
+  apply andb_true_iff in F as [I S]. apply andb_true_iff in F' as [I' S'].
+  rewrite (tview_solo t (feval f) [] [] p W S I), (tview_solo t (feval f) [] [] p' W' S' I'), (Hs t Ht).
+  reflexivity.
+Qed.
 
 (** the model's own output passes [judge_sched]: for every execution the API permits, an
     implementation that does what the model says is judged [Agree] *)
